@@ -22,11 +22,23 @@ from . import p_keyfile
 from .p_parser import write_cfg
 
 
-def prog_script(t, proglen, root):
+def prog_script(t, proglen, root, cbprog=False):
     """script of model thread t (MC_Threads!Op)"""
     s = []
     f = "%s/thr%d.conf" % (root, t)
     for i in range(1, proglen + 1):
+        if cbprog:
+            if i == 1:
+                s.append("readfilecby 1 %s x3d x23" % hx(f))       # the callback hands the turn over: two schedule slots
+            elif i == 2:
+                s.append("ext 1 - %s" % hx("f"))
+            elif i == 3:
+                s.append("set String 1 %s %s %s" % (hx("A"), hx("x"), hx("v%d%d" % (t, i))))
+            elif i == 4:
+                s.append("get String 1 %s %s" % (hx("A"), hx("x")))
+            else:
+                s.append("keys 1 %s" % hx("A"))
+            continue
         if i == 1:
             s.append("readfile 1 %s x3d x23" % hx(f))
         elif i == 2:
@@ -42,7 +54,9 @@ def prog_script(t, proglen, root):
     return s, f
 
 
-def model_result(t, i):
+def model_result(t, i, cbprog=False):
+    if cbprog:
+        return {2: 2 * t + 1, 4: "v%d3" % t}.get(i)
     if i == 3:
         return "v%d2" % t
     if i == 5:
@@ -59,15 +73,15 @@ def strip_volatile(evs):
     return out
 
 
-def replay_schedules(exe, scheds, nthreads, proglen, verdict):
+def replay_schedules(exe, scheds, nthreads, proglen, verdict, cbprog=False):
     cases = []
     for ci, sc in enumerate(scheds):
         R = ROOT + "/sch%d" % (ci % 16)
         lines = ["rm %s" % hx(R)]
         files = []
         for t in range(1, nthreads + 1):
-            ps, f = prog_script(t, proglen, R)
-            lines.append("file %s %s" % (hx(f), hx("f=v%d0\n" % t)))
+            ps, f = prog_script(t, proglen, R, cbprog)
+            lines.append("file %s %s" % (hx(f), hx(("# c\n" * (2 * t) if cbprog else "") + "f=v%d0\n" % t)))
             # every thread script ends by freeing its object (not part of the schedule: runs after the last turn)
             sf = "%s/t%d.script" % (R, t)
             lines.append("file %s %s" % (hx(sf), hx("\n".join(ps) + "\n")))
@@ -94,9 +108,10 @@ def replay_schedules(exe, scheds, nthreads, proglen, verdict):
             for i, e in enumerate(evs, start=1):
                 if e.get("rc") != "ECONF_SUCCESS":
                     bad = "thread %d call %d returned %s" % (t, i, e.get("rc"))
-                want = model_result(t, i)
-                if want is not None and e.get("out") != want:
-                    bad = "thread %d call %d (%s) returned %r, alone it returns %r" % (t, i, e.get("op"), e.get("out"), want)
+                want = model_result(t, i, cbprog)
+                got = e.get("line") if e.get("op") == "ext" else e.get("out")
+                if want is not None and got != want:
+                    bad = "thread %d call %d (%s) returned %r, alone it returns %r" % (t, i, e.get("op"), got, want)
                 if i == proglen and e.get("op") == "keys" and e.get("out") != ["x"]:
                     bad = "thread %d listing returned %r" % (t, e.get("out"))
             if bad:
@@ -257,16 +272,17 @@ def check(pid, tier, seed):
     verdict = core.Verdict(pid)
     rnd = random.Random(seed)
 
-    def cfg(n, pl, shared, exp):
-        return "SPECIFICATION Spec\nCHECK_DEADLOCK FALSE\nINVARIANT Isolation\nCONSTRAINT ExportCase\nCONSTANTS\n NThreads = %d\n ProgLen = %d\n SharedBuffer = %s\n Export = %s\n" % (n, pl, "TRUE" if shared else "FALSE", "TRUE" if exp else "FALSE")
+    def cfg(n, pl, shared, exp, cbprog=False):
+        return "SPECIFICATION Spec\nCHECK_DEADLOCK FALSE\nINVARIANT Isolation\nCONSTRAINT ExportCase\nCONSTANTS\n NThreads = %d\n ProgLen = %d\n SharedBuffer = %s\n Export = %s\n CbProg = %s\n" % (
+            n, pl, "TRUE" if shared else "FALSE", "TRUE" if exp else "FALSE", "TRUE" if cbprog else "FALSE")
     neg = core.tlc_ok("MC_Threads", write_cfg(cfg(2, 4, True, False)), workers=4, timeout=600)
     if not neg.violated:
         raise core.ToolFailure("negative control: MC_Threads with a shared static buffer does NOT violate Isolation (vacuous model)")
     states = 0
     nsched = 0
     okf = 0
-    for n, pl in ((2, 5), (3, 3)):
-        r = core.tlc_ok("MC_Threads", write_cfg(cfg(n, pl, False, True)), workers=8, timeout=1200)
+    for n, pl, cbprog in ((2, 5, False), (3, 3, False), (2, 4, True), (3, 2, True)):
+        r = core.tlc_ok("MC_Threads", write_cfg(cfg(n, pl, False, True, cbprog)), workers=8, timeout=1200)
         if r.violated:
             verdict.violation("C18:model", {"tlc": r.out[-3000:]}, "TLC: Isolation violated in the model\n" + r.out[-1500:])
         states += r.distinct
@@ -274,7 +290,7 @@ def check(pid, tier, seed):
         if tier == "quick" and len(scheds) > 400:
             scheds = rnd.sample(scheds, 400)
         nsched += len(scheds)
-        okf += replay_schedules(exe, scheds, n, pl, verdict)
+        okf += replay_schedules(exe, scheds, n, pl, verdict, cbprog)
     tsan = None
     try:
         tsan = core.build("tsan")
@@ -292,7 +308,7 @@ def check(pid, tier, seed):
     rc = verdict.finish()
     cov = {"states": states, "transitions": states, "traces_validated_against_impl": okf + oks,
            "evaluations": nsched + nthr, "distinct_nontrivial": sum(1 for _ in range(nsched)) + sum(n for n, _ in rounds if n >= 4),
-           "rule": "MC_Threads: all call-level interleavings of 2 threads x 5 calls and 3 threads x 3 calls on private objects (Isolation holds; the negative control with a shared static buffer violates it); %d interleavings exported as schedules and replayed deterministically on real threads with hand-over between calls, per-thread results compared with the model; stress: %s threads with random programs (setters/getters of all types, listings, ext getter, write, merge, reads of private files) run concurrently and alone, results compared call by call, each thread's trace validated by the sequential specification Trace_KeyFile; the same programs under ThreadSanitizer (races are violations unless located in a data symbol referenced by econf_errLocation: %s). non-trivial = interleaving in which threads alternate / stress with >= 4 threads." % (
+           "rule": "MC_Threads: all call-level interleavings of 2 threads x 5 calls and 3 threads x 3 calls on private objects (Isolation holds; the negative control with a shared static buffer violates it), and of 2 threads x 4 calls / 3 threads x 2 calls whose read goes through a callback entry point modelled as TWO steps (up to the callback, after it: the other threads' reads happen inside this read; the line number of the entry read is part of the results); %d interleavings exported as schedules and replayed deterministically on real threads with hand-over between calls and inside the callback, per-thread results compared with the model; stress: %s threads with random programs (setters/getters of all types, listings, ext getter, write, merge, reads of private files) run concurrently and alone, results compared call by call, each thread's trace validated by the sequential specification Trace_KeyFile; the same programs under ThreadSanitizer (races are violations unless located in a data symbol referenced by econf_errLocation: %s). non-trivial = interleaving in which threads alternate / stress with >= 4 threads." % (
                nsched, "/".join(str(n) for n, _ in rounds[:6]), "derived from the binary"),
            "samples": [{"schedule": "0101010101", "threads": 2}], "exhaustive": False, "stress_calls": ncalls,
            "trusted_base": ["TLC 1.8.0", "gcc ASan/UBSan", "clang ThreadSanitizer", "drv.c threads command"]}
